@@ -69,4 +69,24 @@ theorem compose_strict_mono (p l p' l' : Nat) (hl : l < 2 ^ 18) (hl' : l' < 2 ^ 
     omega
   · omega
 
+/-- `tsoutil.ComposeTS` computes on 64-bit words: `uint64(physical)<<18 | uint64(logical)&0x3FFFF`.  For
+    a physical part below 2^46 ms (year 4199) and a logical part that fits its 18 bits this is exactly the
+    arithmetic `compose`, so `compose_strict_mono` is a statement about the real 64-bit composition. -/
+theorem composeBV_eq_compose (p l : BitVec 64) (hp : p.toNat < 2 ^ 46) (hl : l.toNat < 2 ^ 18) :
+    ((p <<< 18) ||| (l &&& 0x3FFFF#64)).toNat = p.toNat * 2 ^ 18 + l.toNat := by
+  have hmask : l &&& 0x3FFFF#64 = l := by
+    apply BitVec.eq_of_toNat_eq
+    simp only [BitVec.toNat_and, BitVec.toNat_ofNat]
+    have : (0x3FFFF : Nat) % 2 ^ 64 = 2 ^ 18 - 1 := by decide
+    rw [this, Nat.and_two_pow_sub_one_eq_mod, Nat.mod_eq_of_lt hl]
+  rw [hmask]
+  have hsh : (p <<< 18).toNat = p.toNat <<< 18 := by
+    rw [BitVec.toNat_shiftLeft, Nat.mod_eq_of_lt]
+    rw [Nat.shiftLeft_eq]; omega
+  rw [BitVec.toNat_or, hsh, ← Nat.shiftLeft_add_eq_or_of_lt hl, Nat.shiftLeft_eq]
+
+theorem composeBV_eq (p l : BitVec 64) (hp : p.toNat < 2 ^ 46) (hl : l.toNat < 2 ^ 18) :
+    ((p <<< 18) ||| (l &&& 0x3FFFF#64)).toNat = compose p.toNat l.toNat :=
+  composeBV_eq_compose p l hp hl
+
 end PdModel.Spec.C01
